@@ -851,4 +851,293 @@ Qed.
 Lemma inv_pool_reachable g progs s : reachable g progs s -> inv_pool g s.
 Proof. induction 1; [apply inv_pool_init|eapply inv_pool_step; eassumption]. Qed.
 
+(* ---------------------------------------------------------------- invariant: streams and completion *)
+Definition completes' (sid : nat) (l : list event) : nat := completes sid l.
+
+Lemma completes_app sid l1 l2 : completes sid (l1 ++ l2) = completes sid l1 + completes sid l2.
+Proof. unfold completes. rewrite filter_app, app_length. reflexivity. Qed.
+Lemma completes_rev sid l : completes sid (rev l) = completes sid l.
+Proof.
+  induction l as [|e r IH]; [reflexivity|]. cbn [rev]. rewrite completes_app, IH.
+  change (e :: r) with ([e] ++ r). rewrite completes_app. lia.
+Qed.
+Lemma completes_calls sid t sg c evs :
+  completes sid (map (ECall t sg c) evs) = if Nat.eqb sg sid then count_complete evs else 0.
+Proof.
+  unfold completes, count_complete. induction evs as [|e r IH]; cbn [map filter].
+  - destruct (Nat.eqb sg sid); reflexivity.
+  - destruct e; cbn [is_complete].
+    + exact IH.
+    + destruct (Nat.eqb sg sid) eqn:E; cbn [length]; rewrite IH; reflexivity.
+Qed.
+Lemma completes_pos sid l : completes sid l <> 0 -> exists t c, In (ECall t sid c CComplete) l.
+Proof.
+  unfold completes. induction l as [|e r IH]; cbn [filter]; [cbn; lia|].
+  destruct e as [| t s0 c ev | |]; try (intros H; destruct (IH H) as [t0 [c0 H0]]; exists t0, c0; right; exact H0).
+  destruct ev; try (intros H; destruct (IH H) as [t0 [c0 H0]]; exists t0, c0; right; exact H0).
+  destruct (Nat.eqb s0 sid) eqn:E.
+  - intros _. apply Nat.eqb_eq in E; subst. exists t, c. left; reflexivity.
+  - intros H; destruct (IH H) as [t0 [c0 H0]]; exists t0, c0; right; exact H0.
+Qed.
+
+Record inv_str (s : State) : Prop := mkIS {
+  is_lt : forall c, c < length (s_objs s) -> c_stream (obj' s c) < s_nsid s;
+  is_inj : forall c1 c2, c1 < length (s_objs s) -> c2 < length (s_objs s) ->
+            c_stream (obj' s c1) = c_stream (obj' s c2) -> c1 = c2;
+  is_log : forall t sid c e, In (ECall t sid c e) (s_log s) -> sid < s_nsid s;
+  is_once : forall sid, completes sid (s_log s) <= 1 /\
+            (completes sid (s_log s) = 1 -> forall c, c < length (s_objs s) -> c_stream (obj' s c) = sid ->
+               cclosed (c_st (obj' s c)) = true) }.
+
+Lemma inv_str_init progs : inv_str (init cstate progs).
+Proof.
+  constructor; cbn; try (intros; lia); try tauto.
+Qed.
+
+Lemma inv_str_ext (s s' : State) :
+  (forall x, c_stream (obj' s' x) = c_stream (obj' s x)) -> (forall x, c_st (obj' s' x) = c_st (obj' s x)) ->
+  length (s_objs s') = length (s_objs s) -> s_nsid s' = s_nsid s -> s_log s' = s_log s ->
+  inv_str s -> inv_str s'.
+Proof.
+  intros Hs Hst Hlen Hn Hl [Ilt Iinj Ilog Ionce]. constructor.
+  - intros c L. rewrite Hs, Hn. apply Ilt. lia.
+  - intros c1 c2 L1 L2. rewrite !Hs. apply Iinj; lia.
+  - intros t0 sid c e Hin. rewrite Hn. rewrite Hl in Hin. eauto.
+  - intros sid. rewrite Hl. destruct (Ionce sid) as [A B]. split; [assumption|].
+    intros H1 c L Es. rewrite Hs in Es. rewrite Hst. apply B; auto. lia.
+Qed.
+
+Lemma inv_str_step g s t s' : inv_pool g s -> inv_str s -> exec' g s t = Some s' -> inv_str s'.
+Proof.
+  intros IP I E. destruct I as [Ilt Iinj Ilog Ionce].
+  destruct (exec_spec _ _ _ _ E) as
+    [th' Hc Hf Ho Hn Hk Hl Ht Hnr Hnp Hnr0 Hnm0
+    |p th' c free' objs0 Hpc Hpop Hf Ho Hn Ht Hnr Hl Hcn Hpan
+    |c w st' evs closes th' Hpc Hlk Hw Ho Hc Hf Hn Hk Ht Hcl Hncl Hnp
+    |c k th' Hpc Ho Hcf Hn Hk Hl Ht Hnr Hnp].
+  - assert (Hobj : forall x, obj' s' x = obj' s x) by (intros x; apply obj_same; assumption).
+    apply (inv_str_ext s s'); try assumption; try (intros x; rewrite Hobj; reflexivity);
+      [rewrite Ho; reflexivity|constructor; assumption].
+  - assert (Hfr : forall x, In x (s_free s) -> x < length (s_objs s)) by (intros x Hx; apply (ip_free_ent _ _ IP _ Hx)).
+    pose proof (miss_obj_len _ _ _ _ Hpop Hfr) as Lc.
+    assert (Hlen' : length (s_objs s') = length objs0) by (rewrite Ho; apply upd_length).
+    assert (Hother : forall x, x <> c -> obj' s' x = obj' s x)
+      by (intros x N; eapply miss_obj_other; eassumption).
+    assert (Hnew : c_stream (obj' s' c) = s_nsid s /\ c_st (obj' s' c) = cinit).
+    { unfold obj; rewrite Ho, nth_upd_eq by assumption. split; reflexivity. }
+    assert (Hold : forall x, x < length (s_objs s') -> x <> c -> x < length (s_objs s)).
+    { intros x L N. rewrite Hlen' in L. destruct (pop_cases _ _ _ _ Hpop) as [[_ ->]|[_ [_ [Ec ->]]]]; [assumption|].
+      rewrite app_length in L; cbn in L. lia. }
+    assert (Hcomp : forall sid, completes sid (s_log s') = completes sid (s_log s)).
+    { intros sid. destruct Hl as [Hl|Hl]; rewrite Hl; reflexivity. }
+    constructor.
+    + intros x L. rewrite Hn. destruct (Nat.eq_dec x c) as [->|N].
+      * destruct Hnew as [-> _]. lia.
+      * rewrite Hother by assumption. specialize (Ilt _ (Hold _ L N)). lia.
+    + intros c1 c2 L1 L2 Es. destruct (Nat.eq_dec c1 c) as [->|N1]; destruct (Nat.eq_dec c2 c) as [->|N2]; try reflexivity.
+      * destruct Hnew as [Hs _]. rewrite Hs, Hother in Es by assumption. specialize (Ilt _ (Hold _ L2 N2)). lia.
+      * destruct Hnew as [Hs _]. rewrite Hs, Hother in Es by assumption. specialize (Ilt _ (Hold _ L1 N1)). lia.
+      * rewrite !Hother in Es by assumption. apply Iinj; auto.
+    + intros t0 sid c0 e Hin. rewrite Hn.
+      assert (In (ECall t0 sid c0 e) (s_log s)).
+      { destruct Hl as [Hl|Hl]; rewrite Hl in Hin; cbn in Hin.
+        - destruct Hin as [H|H]; [discriminate|exact H].
+        - destruct Hin as [H|[H|H]]; [discriminate|discriminate|exact H]. }
+      specialize (Ilog _ _ _ _ H). lia.
+    + intros sid. rewrite Hcomp. destruct (Ionce sid) as [A B]. split; [assumption|].
+      intros H1 x L Es. destruct (Nat.eq_dec x c) as [->|N].
+      * destruct Hnew as [Hs _]. rewrite Hs in Es. subst sid.
+        assert (Hne : completes (s_nsid s) (s_log s) <> 0) by lia.
+        destruct (completes_pos _ _ Hne) as [t0 [c0 Hin]]. specialize (Ilog _ _ _ _ Hin). lia.
+      * rewrite Hother in * by assumption. apply B; auto.
+  - assert (Lc : c < length (s_objs s)) by (apply (ip_range _ _ IP t); rewrite Hpc; destruct w; left; reflexivity).
+    assert (Hother : forall x, x <> c -> obj' s' x = obj' s x) by (intros x N; eapply obj_upd_ne; eassumption).
+    pose proof (obj_upd_eq _ _ _ _ Lc Ho) as Hnew.
+    assert (Hlen' : length (s_objs s') = length (s_objs s)) by (rewrite Ho; apply upd_length).
+    assert (Hstr : forall x, c_stream (obj' s' x) = c_stream (obj' s x)).
+    { intros x. destruct (Nat.eq_dec x c) as [->|N]; [rewrite Hnew; reflexivity|rewrite Hother; auto]. }
+    set (sg := c_stream (obj' s c)) in *.
+    assert (Hcl2 : (closes = true -> cclosed (c_st (obj' s c)) = false /\ cclosed st' = true) /\
+                   (cclosed (c_st (obj' s c)) = true -> cclosed st' = true) /\
+                   count_complete evs = (if closes then 1 else 0)).
+    { destruct Hm as [_ [Hp Hfl]].
+      destruct Hw as [[p [fwd [_ [Hpr _]]]]|[rest [_ [Hpr _]]]];
+        [destruct (Hp _ _ _ _ _ _ Hpr) as [A [B C]]|destruct (Hfl _ _ _ _ Hpr) as [A [B C]]]; auto. }
+    destruct Hcl2 as [Hcl2 [Hcl3 Hcnt]].
+    assert (Hcomp : forall sid, completes sid (s_log s') =
+                     (if Nat.eqb sg sid then count_complete evs else 0) + completes sid (s_log s)).
+    { intros sid. destruct Hw as [[p [fwd [_ [_ Hl]]]]|[rest [_ [_ Hl]]]]; rewrite Hl, completes_app, completes_rev, completes_calls.
+      - change (EProc t p c (c_key (obj' s c)) sg :: s_log s) with ([EProc t p c (c_key (obj' s c)) sg] ++ s_log s).
+        rewrite completes_app. cbn. lia.
+      - reflexivity. }
+    constructor.
+    + intros x L. rewrite Hn, Hstr. apply Ilt. lia.
+    + intros c1 c2 L1 L2. rewrite !Hstr. apply Iinj; lia.
+    + intros t0 sid c0 e Hin. rewrite Hn.
+      assert (In (ECall t0 sid c0 e) (s_log s) \/ sid = sg).
+      { destruct Hw as [[p [fwd [_ [_ Hl]]]]|[rest [_ [_ Hl]]]]; rewrite Hl in Hin;
+          apply in_app_or in Hin as [H|H].
+        - right. apply in_rev in H. apply in_map_iff in H as [x [Hx _]]. inversion Hx; reflexivity.
+        - destruct H as [H|H]; [discriminate|left; exact H].
+        - right. apply in_rev in H. apply in_map_iff in H as [x [Hx _]]. inversion Hx; reflexivity.
+        - left; exact H. }
+      destruct H as [H|H]; [eapply Ilog; eassumption|subst sid; apply Ilt; assumption].
+    + intros sid. rewrite Hcomp. destruct (Ionce sid) as [A B].
+      destruct (Nat.eqb sg sid) eqn:Es.
+      * apply Nat.eqb_eq in Es. subst sid. rewrite Hcnt. destruct closes.
+        -- destruct (Hcl2 eq_refl) as [C1 C2].
+           assert (completes sg (s_log s) = 0).
+           { destruct (completes sg (s_log s)) as [|[|n]] eqn:En; [reflexivity| |lia].
+             specialize (B eq_refl c Lc eq_refl). congruence. }
+           rewrite H. split; [lia|]. intros _ x L Ex. rewrite Hstr in Ex. rewrite Hlen' in L.
+           assert (x = c) by (apply Iinj; auto). subst x. rewrite Hnew. cbn. assumption.
+        -- cbn [plus]. split; [assumption|]. intros H1 x L Ex. rewrite Hstr in Ex. rewrite Hlen' in L.
+           assert (x = c) by (apply Iinj; auto). subst x. rewrite Hnew. cbn. apply Hcl3. apply B; auto.
+      * cbn [plus]. split; [assumption|]. intros H1 x L Ex. rewrite Hstr in Ex. rewrite Hlen' in L.
+        assert (x <> c) by (intros ->; apply Nat.eqb_neq in Es; apply Es; exact Ex).
+        rewrite Hother by assumption. apply B; auto.
+  - assert (Lc : c < length (s_objs s)) by (apply (ip_range _ _ IP t); rewrite Hpc; destruct k; left; reflexivity).
+    assert (Hother : forall x, x <> c -> obj' s' x = obj' s x) by (intros x N; eapply obj_upd_ne; eassumption).
+    pose proof (obj_upd_eq _ _ _ _ Lc Ho) as Hnew.
+    assert (Hlen' : length (s_objs s') = length (s_objs s)) by (rewrite Ho; apply upd_length).
+    assert (Hstr : forall x, c_stream (obj' s' x) = c_stream (obj' s x)).
+    { intros x. destruct (Nat.eq_dec x c) as [->|N]; [rewrite Hnew; reflexivity|rewrite Hother; auto]. }
+    assert (Hst : forall x, c_st (obj' s' x) = c_st (obj' s x)).
+    { intros x. destruct (Nat.eq_dec x c) as [->|N]; [rewrite Hnew; reflexivity|rewrite Hother; auto]. }
+    apply (inv_str_ext s s'); try assumption. constructor; assumption.
+Qed.
+
+Lemma inv_str_reachable g progs s : reachable g progs s -> inv_str s.
+Proof.
+  induction 1; [apply inv_str_init|].
+  eapply inv_str_step; try eassumption. eapply inv_pool_reachable; eassumption.
+Qed.
+
 End Proofs.
+
+(* ================================================================ the two concrete machines satisfy machine_ok *)
+Lemma count_complete_app a b : count_complete (a ++ b) = count_complete a + count_complete b.
+Proof. unfold count_complete. rewrite filter_app, app_length. reflexivity. Qed.
+
+Lemma t_send_spec ret n q st' ev b : t_send ret n q = (st', ev, b) ->
+  (b = true -> tc_closed st' = true) /\ count_complete ev = (if b then 1 else 0).
+Proof.
+  unfold t_send. destruct (t_add_contig n q ret) as [[ret' n'] q'].
+  destruct (last_end ret'); intros H; inversion H; subst; cbn; split; auto; discriminate.
+Qed.
+
+Lemma t_flush_loop_spec fuel : forall st acc st' ev b, t_flush_loop fuel st acc = (st', ev, b) ->
+  (b = true -> tc_closed st' = true) /\ count_complete ev = count_complete acc + (if b then 1 else 0).
+Proof.
+  induction fuel as [|f IH]; intros st acc st' ev b; cbn [t_flush_loop].
+  - intros H; inversion H; subst. split; [discriminate|lia].
+  - destruct (tc_q st) as [|pg r].
+    + intros H; inversion H; subst. cbn. split; [reflexivity|]. rewrite count_complete_app. reflexivity.
+    + destruct (t_add_next (tc_next st) pg) as [ch n'].
+      destruct (t_send [ch] n' r) as [[st1 evs] closes] eqn:Es.
+      destruct (t_send_spec _ _ _ _ _ _ Es) as [A B].
+      destruct closes.
+      * intros H; inversion H; subst. split; [auto|]. rewrite count_complete_app, B. reflexivity.
+      * intros H. destruct (IH _ _ _ _ _ H) as [C D]. split; [assumption|].
+        rewrite D, count_complete_app, B. lia.
+Qed.
+
+Lemma tcp_machine_ok : machine_ok tconn tc_init tc_closed tcp_process tcp_flush.
+Proof.
+  split; [reflexivity|]. split.
+  - intros st h p st' ev b. unfold tcp_process. destruct (tc_closed st) eqn:Ec.
+    + intros H; inversion H; subst. repeat split; auto; discriminate.
+    + assert (Hs : forall ret n q, t_send ret n q = (st', ev, b) ->
+         (b = true -> false = false /\ tc_closed st' = true) /\ (false = true -> tc_closed st' = true) /\
+         count_complete ev = (if b then 1 else 0)).
+      { intros ret n q Hs. destruct (t_send_spec _ _ _ _ _ _ Hs) as [A B]. repeat split; auto; discriminate. }
+      destruct (tc_next st) as [n|].
+      * destruct (0 <? p_seq p - n)%Z.
+        -- intros H; inversion H; subst. repeat split; auto; discriminate.
+        -- destruct (byte_span (Some n) (p_seq p) (p_bytes p)) as [b0 n']. apply Hs.
+      * destruct (p_syn p); [apply Hs|].
+        intros H; inversion H; subst. repeat split; auto; discriminate.
+  - intros st st' ev b. unfold tcp_flush. destruct (tc_closed st) eqn:Ec.
+    + intros H; inversion H; subst. repeat split; auto; discriminate.
+    + intros H. destruct (t_flush_loop_spec _ _ _ _ _ _ H) as [A B]. repeat split; auto; discriminate.
+Qed.
+
+Lemma r_add_contig_len : forall q last accb acce n q' b e,
+  r_add_contig last q accb acce = (n, q', b, e) -> length q' <= length q.
+Proof.
+  induction q as [|pg r IH]; intros last accb acce n q' b e; cbn [r_add_contig].
+  - intros H; inversion H; subst. cbn; lia.
+  - destruct (rp_seq pg - last =? 0)%Z.
+    + intros H. apply IH in H. cbn; lia.
+    + intros H; inversion H; subst. lia.
+Qed.
+
+Lemma r_send_spec dir next q seq0 bytes0 s0 e0 ev q' e n :
+  r_send dir next q seq0 bytes0 s0 e0 = (ev, q', e, n) ->
+  is_complete ev = false /\ length q' <= length q.
+Proof.
+  unfold r_send. destruct (r_add_contig (seq0 + zlen bytes0) q bytes0 e0) as [[[nseq q1] allb] e1] eqn:Ea.
+  intros H; inversion H; subst. split; [reflexivity|]. eapply r_add_contig_len; eassumption.
+Qed.
+
+Lemma r_flush_half_spec fuel : forall dir h acc h' ev, r_flush_half fuel dir h acc = (h', ev) ->
+  count_complete ev = count_complete acc /\ (length (h_q h) < fuel -> h_closed h' = true).
+Proof.
+  induction fuel as [|f IH]; intros dir h acc h' ev; cbn [r_flush_half].
+  - intros H; inversion H; subst. split; [reflexivity|lia].
+  - destruct (h_closed h) eqn:Ec.
+    + intros H; inversion H; subst. split; [reflexivity|auto].
+    + destruct (h_q h) as [|pg r] eqn:Eq.
+      * intros H; inversion H; subst. split; [reflexivity|reflexivity].
+      * destruct (r_send dir (h_next h) r (rp_seq pg) (rp_bytes pg) false (rp_end pg)) as [[[ev1 q'] e] nseq] eqn:Es.
+        destruct (r_send_spec _ _ _ _ _ _ _ _ _ _ _ Es) as [A B].
+        assert (Hc : count_complete (acc ++ [ev1]) = count_complete acc).
+        { rewrite count_complete_app. unfold count_complete at 2. cbn. rewrite A. cbn. lia. }
+        destruct e.
+        -- intros H; inversion H; subst. split; [assumption|reflexivity].
+        -- intros H. destruct (IH _ _ _ _ _ H) as [C D]. split; [congruence|].
+           intros L. apply D. cbn in *. lia.
+Qed.
+
+Lemma rsm_machine_ok : machine_ok rconn rc_init rc_closed rsm_process rsm_flush.
+Proof.
+  split; [reflexivity|]. split.
+  - intros st fwd p st' ev b. unfold rsm_process.
+    set (h := if fwd then r_c2s st else r_s2c st).
+    destruct (h_closed h) eqn:Ec.
+    + intros H; inversion H; subst. repeat split; auto; discriminate.
+    + assert (Hopen : rc_closed st = false).
+      { unfold rc_closed. subst h. destruct fwd; rewrite Ec; [reflexivity|apply andb_false_r]. }
+      assert (Hq : forall st1, (st1, @nil cevent, false) = (st', ev, b) ->
+          (b = true -> rc_closed st = false /\ rc_closed st' = true) /\ (rc_closed st = true -> rc_closed st' = true) /\
+          count_complete ev = (if b then 1 else 0)).
+      { intros st1 H; inversion H; subst. repeat split; try discriminate; try congruence. }
+      destruct (match h_next h with
+                | Some n => if (0 <? p_seq p - n)%Z then (true, p_seq p, Some n) else (false, p_seq p, Some n)
+                | None => if p_syn p then (false, (p_seq p + 1)%Z, Some (p_seq p + 1)%Z) else (true, p_seq p, None)
+                end) as [[queue sq] next1].
+      destruct queue.
+      * destruct (r_check_overlap (h_q h) true sq (p_bytes p) (p_fin p)) as [[q' b1] cut]. apply Hq.
+      * destruct (r_overlap_existing next1 sq (p_bytes p)) as [b1 seq1].
+        destruct (r_check_overlap (h_q h) false seq1 b1 (p_fin p)) as [[q1 b2] cut].
+        destruct ((match b2 with [] => false | _ :: _ => true end) || p_fin p || p_syn p); [|apply Hq].
+        destruct (r_send (negb fwd) next1 q1 seq1 b2 (p_syn p) (p_fin p)) as [[[ev1 q2] e] nseq] eqn:Es.
+        destruct (r_send_spec _ _ _ _ _ _ _ _ _ _ _ Es) as [A _].
+        destruct e.
+        -- unfold r_after_close.
+           destruct (rc_closed (set_half st fwd (mkHalf (Some (if p_fin p then (nseq + 1)%Z else nseq)) [] true) cut)) eqn:Ecl;
+             intros H; inversion H; subst; unfold count_complete; cbn; rewrite A; cbn;
+             repeat split; try discriminate; try congruence; auto.
+        -- intros H; inversion H; subst; unfold count_complete; cbn; rewrite A; cbn;
+             repeat split; try discriminate; try congruence.
+  - intros st st' ev b. unfold rsm_flush. destruct (rc_closed st) eqn:Ec.
+    + intros H; inversion H; subst. repeat split; auto; discriminate.
+    + destruct (r_flush_half (S (length (h_q (r_s2c st)))) true (r_s2c st) []) as [hs e1] eqn:E1.
+      destruct (r_flush_half (S (length (h_q (r_c2s st)))) false (r_c2s st) e1) as [hc e2] eqn:E2.
+      destruct (r_flush_half_spec _ _ _ _ _ _ E1) as [A1 B1].
+      destruct (r_flush_half_spec _ _ _ _ _ _ E2) as [A2 B2].
+      intros H; inversion H; subst.
+      split; [intros _; split; [reflexivity|]|split; [discriminate|]].
+      * unfold rc_closed; cbn. rewrite B1, B2 by lia. reflexivity.
+      * rewrite count_complete_app, A2, A1. reflexivity.
+Qed.
